@@ -8,7 +8,8 @@ import (
 )
 
 // MayWrite classifies an instruction's effect on the memory cell (root,path) of pointee type t.
-//   0 = no effect, 1 = definitely stores value (returned), 2 = may clobber (unknown value).
+//
+//	0 = no effect, 1 = definitely stores value (returned), 2 = may clobber (unknown value).
 type writeEffect int
 
 const (
@@ -25,7 +26,7 @@ var PureCallees = map[string]bool{
 	"(*sync.RWMutex).RLock": true, "(*sync.RWMutex).RUnlock": true,
 	"fmt.Errorf": true, "fmt.Sprintf": true, "errors.New": true,
 	"(encoding/binary.bigEndian).Uint16": true, "(encoding/binary.bigEndian).Uint32": true,
-	"(encoding/binary.bigEndian).Uint64": true,
+	"(encoding/binary.bigEndian).Uint64":    true,
 	"(encoding/binary.bigEndian).PutUint16": true, "(encoding/binary.bigEndian).PutUint32": true,
 	"(encoding/binary.bigEndian).PutUint64": true, "(encoding/binary.bigEndian).AppendUint32": true,
 	"bytes.Index": true, "time.Now": true, "(time.Time).UnixNano": true, "time.Unix": true,
@@ -80,9 +81,10 @@ func effectOn(in ssa.Instruction, root ssa.Value, path string, t types.Type) (wr
 
 // ResolveLoad finds the value a load observes, if it is determined by a unique preceding store
 // on every path (following single-predecessor chains only). It returns:
-//   (val, true)  – the load observes exactly val (an earlier store's operand);
-//   (nil, true)  – the load observes the value the cell had on function entry;
-//   (nil, false) – unknown (clobbered, or a join point intervenes).
+//
+//	(val, true)  – the load observes exactly val (an earlier store's operand);
+//	(nil, true)  – the load observes the value the cell had on function entry;
+//	(nil, false) – unknown (clobbered, or a join point intervenes).
 func ResolveLoad(load *ssa.UnOp) (ssa.Value, bool) {
 	if load.Op != token.MUL {
 		return nil, false
